@@ -189,10 +189,69 @@ func runReplay(path string) int {
 		return replaySched(art.Property, art.Replay)
 	case "seqx", "crashx":
 		return replaySeq(art.Property, art.Replay)
+	case "lockx":
+		return replayLock(art.Replay)
+	case "dmgx":
+		return replayDmg(art.Replay)
 	default:
 		fmt.Println("replay of this engine's artefacts: re-run the check; the artefact names the exact case (damage / codec case)")
 		return 0
 	}
+}
+
+func replayLock(raw json.RawMessage) int {
+	var rep struct {
+		Start   string   `json:"start"`
+		History []string `json:"history"`
+	}
+	if err := json.Unmarshal(raw, &rep); err != nil || rep.Start == "" {
+		fmt.Println("nothing to replay (cross-process case: re-run the check)")
+		return 0
+	}
+	root, _ := os.MkdirTemp(scratch(), "verif.lockx.")
+	defer os.RemoveAll(root)
+	problems, err := lockx.Replay(root, rep.Start, rep.History)
+	if err != nil {
+		fmt.Fprintln(os.Stderr, err)
+		return 2
+	}
+	for _, p := range problems {
+		fmt.Printf("VIOLATION reproduced: %s after %v from start state %s\n", p, rep.History, rep.Start)
+	}
+	if len(problems) == 0 {
+		fmt.Printf("property C19 holds after %v from start state %s\n", rep.History, rep.Start)
+		return 0
+	}
+	return 1
+}
+
+func replayDmg(raw json.RawMessage) int {
+	var rep struct {
+		Task   dmgx.Task `json:"task"`
+		Damage string    `json:"damage"`
+	}
+	if err := json.Unmarshal(raw, &rep); err != nil {
+		fmt.Fprintln(os.Stderr, err)
+		return 2
+	}
+	tb, _ := json.Marshal(rep.Task)
+	res := dmgx.Worker(tb).(dmgx.Result)
+	dmgx.CleanupWorker()
+	if res.HarnessErr != "" {
+		fmt.Fprintln(os.Stderr, res.HarnessErr)
+		return 2
+	}
+	rc := 0
+	for _, p := range res.Problems {
+		if p.Damage == rep.Damage {
+			fmt.Printf("VIOLATION reproduced: %s -- damage: %s\n", p.Msg, p.Damage)
+			rc = 1
+		}
+	}
+	if rc == 0 {
+		fmt.Printf("the property holds for damage %q (shard of %d cases re-run)\n", rep.Damage, res.Cases)
+	}
+	return rc
 }
 
 func replaySched(prop string, raw json.RawMessage) int {
@@ -767,6 +826,16 @@ func runLock(tier string) int {
 				Replay: map[string]any{"engine": "lockx", "start": p.Start, "history": p.Hist, "expected_vs_observed": p.Msg}})
 		}
 	}
+	// cross-process sanity case
+	cp, _ := os.MkdirTemp(root, "x")
+	for _, p := range lockx.CrossProcess(cp) {
+		if strings.HasPrefix(p, "harness: ") {
+			r.HarnessError(p)
+			continue
+		}
+		r.Report(eng.Violation{Sig: "cross-process: " + seqx.Signature(p), Msg: p, Replay: map[string]any{"engine": "lockx", "case": "handle held by a helper process", "expected_vs_observed": p}})
+	}
+	r.Cov["cross_process_cases"] = 2
 	r.Cov["states"] = states
 	r.Cov["transitions"] = trans
 	r.Cov["traces_validated_against_impl"] = trans
